@@ -230,14 +230,26 @@ func c12Hist64(ctx *run.Ctx, id run.CaseID, r *gen.Rng) {
 			ctx.Eval(2)
 			edges := oracle.NewEdges(true, subj, clp)
 			for _, p := range candidates(r, 30, subj, clp) {
-				if !edges.FartherThan(p, 2) {
+				// 6 units, not 2: which of two coincident / nearly coincident edges wins a tie depends on the insertion order,
+				// and the sweep's listed in-band residuals (2-5 units, C01) then show up as differences between groupings;
+				// stale state or lost paths - what this sub-check is for - produce differences far from every edge
+				if !edges.FartherThan(p, 6) {
 					continue
 				}
 				w1, o1 := oracle.Winding(a, p)
 				w2, o2 := oracle.Winding(b, p)
 				ctx.Count("points_compared", 1)
 				if (w1 != 0 || o1) != (w2 != 0 || o2) {
-					ctx.Fail(digest, "grouping", "", fmt.Sprintf("region differs at %s between the history's AddPaths grouping and one AddPaths call per type (clip first): %v vs %v", fmtPt(p), a, b), h)
+					// an order-dependent choice of the sweep's join / self-intersection repair (listed finding) explains a
+					// difference only if the witness lies in such an event's triangle in one of the two executions
+					class := ""
+					one := []*addOp{{Paths: clp, Type: 1}, {Paths: subj, Type: 0}}
+					for _, t := range append(discardEventsAdds(adds, ct, fr), discardEventsAdds(one, ct, fr)...) {
+						if t.containsInflated(p, 2.5) {
+							class = "repair-discarded-loop"
+						}
+					}
+					ctx.Fail(digest, "grouping", class, fmt.Sprintf("region differs at %s between the history's AddPaths grouping and one AddPaths call per type (clip first): %v vs %v", fmtPt(p), a, b), h)
 					break
 				}
 			}
